@@ -454,11 +454,16 @@ def set_path(v: t.Any, path: t.Tuple, f: t.Callable[[t.Any], t.Any]) -> t.Any:
     return v
 
 
-VARIANTS = ["equal", "permuted", "inside_tol", "outside_tol", "drop_row", "add_row", "drop_field", "null_cell", "nesting", "int_for_float", "rename_field", "none_row", "dup_count"]
+VARIANTS = ["equal", "permuted", "inside_tol", "outside_tol", "band_accept", "band_reject", "drop_row", "add_row", "drop_field", "null_cell", "nesting", "int_for_float", "rename_field", "none_row", "dup_count"]
 
 
 def variant(rng: random.Random, rows: t.List[t.Any], kind: str, allow_dec: bool) -> t.List[t.Any]:
     rows = copy.deepcopy(rows)
+    if kind in ("band_accept", "band_reject") and not any(float_paths(r) for r in rows if r):
+        # make sure there is a float to perturb: plain, inside a list, a nested Row or a map value
+        f = flt(1.5)
+        cell = rng.choice([f, {"list": [flt(2.25), f]}, {"row": {"hf": True, "fields": [{"str": "f"}], "vs": [f]}}, {"dict": {"ks": ["p"], "vs": [f]}}])
+        rows = [{"row": {"hf": True, "fields": [{"str": "k"}, {"str": "v"}], "vs": [{"str": rng.choice(STRS)}, cell]}}]
     if kind == "equal" or not rows:
         if kind == "add_row":
             return rows + gen_rows(rng, allow_dec)[:1]
@@ -477,6 +482,22 @@ def variant(rng: random.Random, rows: t.List[t.Any], kind: str, allow_dec: bool)
         delta = (1e-7 * max(base, 1e-3)) if kind == "inside_tol" else (1e-3 * max(base, 1.0))
         rows[i] = set_path(rows[i], p, lambda v: perturb_float(v, delta * rng.choice([1, -1])))
         return rows
+    if kind in ("band_accept", "band_reject"):
+        # the closeness test is asymmetric: |a - b| <= atol + rtol * |b| with b the EXPECTED value.  Make the
+        # difference fall between rtol*|actual| and rtol*|expected| (exact binary floats; used with a large rtol, atol 0)
+        cand = [j for j, r in enumerate(rows) if r and float_paths(r)]
+        if not cand:
+            return rows
+        i = rng.choice(cand)
+        paths = float_paths(rows[i])
+        p = rng.choice(paths)
+        lo, hi = rng.choice([(1.0, 2.0), (3.0, 4.0), (0.5, 1.0), (-1.0, -2.0)])
+        a, b = (lo, hi) if kind == "band_accept" else (hi, lo)   # actual, expected
+        rows[i] = set_path(rows[i], p, lambda v: flt(a))
+        out = copy.deepcopy(rows)
+        out[i] = set_path(out[i], p, lambda v: flt(b))
+        rows[:] = rows  # actual is modified in place by the caller through the returned pair
+        return ("pair", rows, out)
     if kind == "drop_row":
         return rows[:i] + rows[i + 1 :]
     if kind == "add_row":
@@ -498,7 +519,12 @@ def variant(rng: random.Random, rows: t.List[t.Any], kind: str, allow_dec: bool)
         if isinstance(v, dict) and "list" in v:
             r["vs"][j] = {"list": v["list"] + [{"int": 2}]} if rng.random() < 0.5 else {"row": {"hf": False, "fields": [], "vs": v["list"]}}
         elif isinstance(v, dict) and "row" in v:
-            r["vs"][j] = {"list": v["row"]["vs"]} if rng.random() < 0.5 else {"row": dict(v["row"], vs=v["row"]["vs"][:-1])}
+            if rng.random() < 0.5:
+                r["vs"][j] = {"list": v["row"]["vs"]}
+            else:
+                # one field fewer (a Row built from no keyword arguments has no __fields__ at all)
+                fs, vs = v["row"]["fields"][:-1], v["row"]["vs"][:-1]
+                r["vs"][j] = {"row": {"hf": bool(fs), "fields": fs, "vs": vs}}
         elif isinstance(v, dict) and "dict" in v:
             d = v["dict"]
             r["vs"][j] = {"dict": {"ks": d["ks"] + ["q"], "vs": d["vs"] + [{"int": 2}]}} if rng.random() < 0.5 else {"dict": {"ks": list(reversed(d["ks"])), "vs": list(reversed(d["vs"]))}}
@@ -724,11 +750,20 @@ def cases_for(ctx: Ctx) -> t.List[dict]:
         rows = gen_rows(rng, allow_dec)
         kind = VARIANTS[i % len(VARIANTS)]
         exp = variant(rng, rows, kind, allow_dec)
-        if rng.random() < 0.3:
-            rng.shuffle(exp)
-        if rng.random() < 0.15:
-            rows, exp = exp, rows
-        cases.append({"kind": "assert", "actual": rows, "expected": exp, "opts": rng.choice(OPTIONS), "variant": kind, "origin": "random"})
+        opts = rng.choice(OPTIONS)
+        if isinstance(exp, tuple):
+            # band variants return (actual, expected) and need a tolerance that makes the band wide
+            _, rows, exp = exp
+            lo = min(abs(x) for x in (n / SCALE for r in rows + exp for n in all_floats(r)) if x) if rows else 1.0
+            opts = dict(rng.choice([{"rtol": 0.5, "atol": 0.0}, {"rtol": 0.5, "atol": 0.0, "checkRowOrder": True}]))
+            if any(abs(n / SCALE) in (3.0, 4.0) for r in rows + exp for n in all_floats(r)) and rng.random() < 0.5:
+                opts["rtol"] = 0.25
+        else:
+            if rng.random() < 0.3:
+                rng.shuffle(exp)
+            if rng.random() < 0.15:
+                rows, exp = exp, rows
+        cases.append({"kind": "assert", "actual": rows, "expected": exp, "opts": opts, "variant": kind, "origin": "random"})
     for _ in range(n_schema):
         s = gen_struct(rng, 2)
         kind, m = mutate_schema(rng, s)
@@ -980,7 +1015,7 @@ def run(ctx: Ctx) -> None:
             "evaluations": len(res),
             "distinct_nontrivial": len(nontrivial),
             "rule": "corpus; random Row scripts (kwargs / positional / args+kwargs / Row-class factory with duplicate names and wrong arity / calling a row; "
-            "nested Rows, lists, dicts, None, Decimal; 3-8 queries each); random row lists with one of 13 near-miss variants x 6 option settings; random schema pairs with 7 variants; "
+            "nested Rows, lists, dicts, None, Decimal; 3-8 queries each); random row lists with one of 15 near-miss variants (incl. differences between rtol*|actual| and rtol*|expected| at large rtol) x option settings; random schema pairs with 7 variants; "
             "non-trivial = distinct Row scripts with at least one successful query, distinct non-empty list / schema pairs",
             "traces_validated_against_impl": sum(1 for r in res if r["model_ok"]),
             "sqlframe_vs_pyspark_agree": sum(1 for r in res if r["spec_ok"]),
